@@ -35,7 +35,9 @@ def one(d):
         dm = subprocess.run(["/venv/bin/python", demo], cwd=w, env=env, capture_output=True, text=True, timeout=600)
         r = subprocess.run(["/verif/check", prop, "--tier", tier], env=dict(os.environ, PMV_REPO=w, PMV_JOBS="6"), capture_output=True, text=True, cwd="/verif")
         keys = [l.split("key=")[1].split()[0] for l in r.stdout.splitlines() if l.startswith("VIOLATION") and "key=" in l]
-        if meta.get("property_holds_on_changed_tree"):
+        if meta.get("documented_miss"):
+            status = ("STILL-MISSED (documented limit, see meta.json)" if r.returncode == 0 else "CAUGHT (was a documented miss)")
+        elif meta.get("property_holds_on_changed_tree"):
             # a change that turned out NOT to break the property inside its quantified domain: the check has to stay silent
             status = ("CAUGHT (silent as it should be: property holds)" if r.returncode == 0 else "FALSE-ALARM(exit %d)" % r.returncode)
         else:
@@ -69,7 +71,7 @@ PLAIN = plain_c_twin() if any(os.path.basename(d).startswith("C15") for d in ds)
 bad = 0
 with cf.ThreadPoolExecutor(max_workers=3) as ex:
     for name, prop, st, keys in ex.map(one, ds):
-        if not st.startswith("CAUGHT"):
+        if not st.startswith("CAUGHT") and not st.startswith("STILL-MISSED (documented"):
             bad += 1
         print("%-48s %-4s %-40s %s" % (name, prop, st, keys))
 if PLAIN:
